@@ -346,8 +346,9 @@ def run_prog_case(c):
     Settings.NO_TERMINATE_ON_TIMEOUT = bool(c["no_term"])
     user_handler = None
     try:
+        alarms = []
         if c.get("pre_timer"):
-            user_handler = lambda *a: None  # noqa
+            user_handler = lambda *a: alarms.append(time.monotonic())  # noqa
             signal.signal(signal.SIGALRM, user_handler)
             signal.setitimer(signal.ITIMER_REAL, c["pre_timer"])
         h0 = signal.getsignal(signal.SIGALRM)
@@ -362,8 +363,10 @@ def run_prog_case(c):
                 body()
             after_threads = [t.name for t in threading.enumerate() if t not in before and t.name not in ("c07-heartbeat",)]
             h1 = signal.getsignal(signal.SIGALRM)
+            if c.get("pre_timer"):
+                time.sleep(0.02)      # an alarm that is due goes off "at once", i.e. asynchronously
             i1 = signal.getitimer(signal.ITIMER_REAL)
-        res.update(hb_gap=hb.gap)
+        res.update(hb_gap=hb.gap, user_alarms=len(alarms))
     finally:
         Settings.NO_TERMINATE_ON_TIMEOUT = old_nt
         signal.setitimer(signal.ITIMER_REAL, 0)
@@ -882,11 +885,77 @@ def run_probe_case(c):
             os.environ["PATH"] = old_path
 
 
+def run_race_case(c):
+    """the alarm delivered INSIDE the wrapper's own `finally`: a trace function sees the first `setitimer(ITIMER_REAL, 0)`
+    line of the sync decorate about to run (the wrapped call has returned) and makes the timer expire at that very
+    moment (disarm + raise_signal: a one-shot timer that has just fired).  Deterministic stand-in for "the call returns
+    on the tick of its deadline"."""
+    import inspect
+    from scrapli import decorators
+    from scrapli.decorators import timeout_wrapper
+    from scrapli.exceptions import ScrapliTimeout
+    from scrapli.settings import Settings
+    src, start = inspect.getsourcelines(decorators.timeout_wrapper)
+    lines = [start + i for i, l in enumerate(src) if "setitimer(signal.ITIMER_REAL,0)" in l.replace(" ", "")]
+    if not lines:
+        return {"harness_error": "no `setitimer(signal.ITIMER_REAL, 0)` line found in timeout_wrapper"}
+    T = type("ParamikoTransport", (RigTransportBase,), {})(True, time.monotonic() + 5)
+
+    def f(self_):
+        if c.get("work"):
+            time.sleep(c["work"] * TICK)
+        return "r1#"
+    f.__name__ = f.__qualname__ = c["name"]
+    obj = SimpleNamespace(transport=T, logger=T.logger, _base_channel_args=SimpleNamespace(timeout_ops=c["t"] * TICK))
+    dec = timeout_wrapper(f)
+    fired, alarms, res = [], [], {}
+
+    def tracer(frame, event, arg):
+        if frame.f_code.co_name != "decorate":
+            return None
+
+        def local(frame, event, arg):
+            if event == "line" and frame.f_lineno in lines and not fired:
+                fired.append(frame.f_lineno)
+                signal.setitimer(signal.ITIMER_REAL, 0)
+                signal.raise_signal(signal.SIGALRM)
+            return local
+        return local
+    old_nt = Settings.NO_TERMINATE_ON_TIMEOUT
+    Settings.NO_TERMINATE_ON_TIMEOUT = bool(c["no_term"])
+    user = lambda *a: alarms.append(1)  # noqa
+    try:
+        signal.signal(signal.SIGALRM, user)
+        if c.get("pre_timer"):
+            signal.setitimer(signal.ITIMER_REAL, c["pre_timer"])
+        t0 = time.monotonic()
+        sys.settrace(tracer)
+        try:
+            dec(obj)
+            res["out"], res["msg"], res["exc"] = "ret", None, None
+        except ScrapliTimeout as e:
+            res["out"], res["msg"], res["exc"] = "timeout", str(e), type(e).__name__
+        except BaseException as e:  # noqa
+            res["out"], res["msg"], res["exc"] = "error", str(e), type(e).__name__
+        finally:
+            sys.settrace(None)
+        res["elapsed"] = time.monotonic() - t0
+        h1 = signal.getsignal(signal.SIGALRM)
+        res.update(injected=bool(fired), handler_same=h1 is user, handler_is_scrapli=isinstance(h1, functools.partial),
+                   itimer_after=signal.getitimer(signal.ITIMER_REAL)[0], closed=T.closed, close_calls=T.close_calls)
+    finally:
+        Settings.NO_TERMINATE_ON_TIMEOUT = old_nt
+        signal.setitimer(signal.ITIMER_REAL, 0)
+        signal.signal(signal.SIGALRM, signal.SIG_DFL)
+    return res
+
+
 def run_select_case(c):
     """which mechanism does the real decorator use for an instantly returning function (no timing)"""
     from scrapli import decorators
     from scrapli.decorators import timeout_wrapper
-    T = type(c["cls"], (RigTransportBase,), {})(True, time.monotonic() + 5)
+    base = type(c["base"], (RigTransportBase,), {}) if c.get("base") else RigTransportBase   # user subclass of a named transport
+    T = type(c["cls"], (base,), {})(True, time.monotonic() + 5)
     tv = c["t"] * TICK if c["t"] else _zero(c.get("zero", "int"))
     obj = SimpleNamespace(transport=T, logger=T.logger, _base_channel_args=SimpleNamespace(timeout_ops=tv))
     seen = {}
@@ -957,6 +1026,8 @@ def run_case(c):
         return run_select_case(c)
     if kind == "probe":
         return run_probe_case(c)
+    if kind == "race":
+        return run_race_case(c)
     raise ValueError(kind)
 
 
@@ -1116,6 +1187,8 @@ def matcher(case):
     if v in ("no_timeout", "closed_iff") and mech == "signal" and case.get("real_transport") in ("paramiko", "ssh2") \
             and case.get("exc") == "ScrapliConnectionError" and case.get("out", "error") == "error":
         return "F24-lib-read-swallows-timeout"   # `except Exception` around recv turns the handler's ScrapliTimeout into a connection error
+    if v == "epilogue_race" and case.get("kind") == "race":
+        return "F25-epilogue-race"   # alarm inside the wrapper's own finally: restore skipped
     if v in ("late", "no_timeout") and mech == "signal" and case.get("nested_armed"):
         return "F18-nested"   # the inner wrapper's setitimer replaces / its finally disarms the outer timer
     return None
@@ -1177,6 +1250,10 @@ def prog_cases(rng, n):
         c = {"kind": "prog", "mech": mech, "cls": cls, "thread": thread, "no_term": rng.random() < 0.4,
              "close_wakes": True if mech != "thread" else rng.random() < 0.7, "prog": prog,
              "zero": rng.choice(["int", "float", "none"]), "t_top": t}
+        if thread == "main" and mech in ("signal", "thread") and rng.random() < (0.45 if mech == "signal" else 0.15):
+            # the user's own alarm (handler that returns) is pending when the operation starts: far away, or due
+            # during the operation (signal mechanism only: under the thread mechanism nothing touches it)
+            c["pre_timer"] = 30.0 if mech == "thread" else rng.choice([30.0, 0.15, 0.35, 0.65])
         out.append(c)
     return out
 
@@ -1224,6 +1301,11 @@ def select_cases():
                                                    (True, False), (False, True), (0, 3)):
         for z in (("int", "float", "none") if t == 0 else ("int",)):
             out.append({"kind": "select", "co": co, "cls": cls or "T", "main": main, "windows": win, "t": t, "zero": z})
+    # the test looks at the EXACT class name: a user subclass of TelnetTransport / SystemTransport in the main thread
+    # selects the signal mechanism (and then nests it over the inherited decorated read: finding F18-nested)
+    for base in ("TelnetTransport", "SystemTransport"):
+        for main in (True, False):
+            out.append({"kind": "select", "co": False, "cls": "My" + base, "base": base, "main": main, "windows": False, "t": 3, "zero": "int"})
     return out
 
 
@@ -1319,6 +1401,10 @@ def run(tier, seed):
     # selection table: one worker, no timing
     t_start = time.time()
     sel_res = run_workers(selc, 2, per_case_timeout=20)
+    racec = [{"kind": "race", "t": 5, "name": nm, "work": w, "no_term": nt, "pre_timer": pt}
+             for nm, w, nt, pt in (("get_prompt", 0, False, None), ("send_input", 1, True, None), ("get_prompt", 0, False, 30.0),
+                                   ("read", 1, False, 30.0), ("foo", 0, True, 30.0))]
+    race_res = run_workers(racec, 1, per_case_timeout=20)
     # pre-filter prog cases for robustness against ties (model under +/- 0.5 tick on a 10x finer scale)
     def fine(p, delta, depth=0):
         """10x finer time scale; every read longer/shorter by delta, every inner timeout shifted by 3 per nesting level"""
@@ -1334,7 +1420,7 @@ def run(tier, seed):
     lines = []
     for c in pcases:
         for delta in (0, -5, 5):
-            cc = dict(c, prog=fine(c["prog"], delta), release=RELEASE * 10, pre_timer=None)
+            cc = dict(c, prog=fine(c["prog"], delta), release=RELEASE * 10, pre_timer=(c["pre_timer"] * 10 if c.get("pre_timer") else None))
             lines.append(model_line(cc))
     try:
         mo = run_model("C07", lines) if lines else []
@@ -1344,7 +1430,7 @@ def run(tier, seed):
     keep, ties = [], 0
     for i, c in enumerate(pcases):
         z, a, b = parse_model(mo[3 * i]), parse_model(mo[3 * i + 1]), parse_model(mo[3 * i + 2])
-        key = lambda x: (x["out"], x["msg"], x["closed"], len(x["acts"]), pending(x))  # noqa
+        key = lambda x: (x["out"], x["msg"], x["closed"], len(x["acts"]), pending(x), x["timer"] is None)  # noqa
         nw = sum(1 for x in prog_tokens(c["prog"]) if x == "work") + 1
         # no decision (done / not done, which deadline first) may flip within +-50 ms: then the end time responds
         # linearly to the perturbation
@@ -1430,6 +1516,44 @@ def run(tier, seed):
                          "mechanism differs from the property's table (signal: main thread + library transport; thread: system/telnet or non-main thread; asyncio; 0 disables)", matcher)
         if not r["h_after_dfl"]:
             ck.violation({**c, "viol": "handler_not_restored"}, "SIGALRM handler not restored after an instantly returning call", matcher)
+    # the alarm landing in the wrapper's own finally (model: wrapSRaced with the generated epilogueGuarded)
+    race_lines = ["race {} u0 {} 0 {} {} {}".format(1 if c["no_term"] else 0, "-" if not c["pre_timer"] else int(round(c["pre_timer"] / TICK)),
+                                                   c["t"], c["name"], " ".join(prog_tokens(["work", c["work"], ["ret"]] if c["work"] else ["ret"])))
+                  for c in racec]
+    try:
+        mo_race = run_model("C07", race_lines)
+    except Exception as e:
+        ck.proof_broken("model driver Drv/C07.lean (race)", repr(e))
+        mo_race = None
+    for i, (c, r) in enumerate(zip(racec, race_res)):
+        if r is None or r.get("harness_error") or not r.get("injected"):
+            raise_harness(ck, f"race rig failed on {c}: {r}")
+            continue
+        ck.case(("race", json.dumps(c, sort_keys=True)), nontrivial=True, tags=("race", f"out={r['out']}"), sample={"race": c, "real": r})
+        info = {**c, "mech": "signal", "out": r["out"], "msg": r["msg"], "closed": r["closed"], "handler_same": r["handler_same"],
+                "itimer_after": r["itimer_after"]}
+        if mo_race is not None:
+            m = parse_model(mo_race[i])
+            mism = []
+            if (r["out"], r["msg"]) != (m["out"], m["msg"]):
+                mism.append(f"outcome impl={r['out']}/{r['msg']} model={m['out']}/{m['msg']}")
+            if r["closed"] != m["closed"]:
+                mism.append(f"closed impl={r['closed']} model={m['closed']}")
+            if r["handler_same"] != (m["handler"] == "u0"):
+                mism.append(f"handler impl same={r['handler_same']} model={m['handler'][:12]}")
+            if (r["itimer_after"] > 0) != (m["timer"] is not None):
+                mism.append(f"itimer impl={r['itimer_after']} model={m['timer']}")
+            if mism:
+                ck.disagree("wrapSRaced vs timeout_wrapper with the alarm inside the finally", c, "; ".join(mism))
+            else:
+                ck.traces_validated += 1
+        # oracle: whatever the interleaving, the previous handler and timer are put back; a timeout closes iff
+        if not r["handler_same"]:
+            ck.violation({**info, "viol": "epilogue_race"}, "alarm delivered inside the wrapper's finally: the previous SIGALRM handler is not restored", matcher)
+        elif bool(c["pre_timer"]) != (r["itimer_after"] > 0):
+            ck.violation({**info, "viol": "epilogue_race"}, "alarm delivered inside the wrapper's finally: the previous ITIMER_REAL is not put back / a timer is left armed", matcher)
+        if r["out"] == "timeout" and (r["msg"] != ORACLE_MESSAGES.get(c["name"], ORACLE_DEFAULT) or r["closed"] != (not c["no_term"])):
+            ck.violation({**info, "viol": "closed_iff"}, "timeout in the epilogue: message / closed-iff", matcher)
     replay_findings(ck, timed, results, rcases)
     ck.extra["timed_runs"] = len(timed) + len(rcases)
     ck.extra["workers"] = nproc
@@ -1516,17 +1640,25 @@ def evaluate(ck, c, r, m):
         if pred_s is None:
             return "model-never"
         return timing_ok(rr["elapsed"], pred_s, tight)
+    def agrees(rr):
+        return rr["out"] == m["out"] and rr["closed"] == m["closed"]
     v = verdict(r)
-    while v == "late" and len(attempts) < 3:
+    # a stalled machine makes a run late, and can turn "finishes 100 ms inside the limit" into a timeout: re-measure
+    # (serially) before believing either; a real difference shows in every attempt
+    while (v == "late" or (v in ("ok", "early") and not agrees(r) and len(attempts) < 3)) and len(attempts) < 3:
         rr = remeasure(ck, c)
         if rr is None or rr.get("harness_error") or rr.get("hung"):
             break
         if kind == "stack" and rr.get("nreads") != r.get("nreads"):
             break
         attempts.append(rr)
-        v = verdict(rr)
-        if v != "late":
-            r = rr
+        v2 = verdict(rr)
+        if v2 != "late" and (agrees(rr) or not agrees(r)):
+            r, v = rr, v2
+            if agrees(rr) and v2 == "ok":
+                break
+        elif v == "late":
+            v = v2 if v2 != "late" else v
     noisy = all(a.get("hb_gap", 0) > NOISY for a in attempts)
     tie = kind == "stack" and c["t_ops"] == c["t_tr"] and c["t_ops"] > 0
     mism = []
@@ -1547,6 +1679,8 @@ def evaluate(ck, c, r, m):
         mism.append("handler impl=changed model=same")
     if (r["itimer_after"] > 0) != (m["timer"] is not None):
         mism.append(f"itimer impl={r['itimer_after']} model={m['timer']}")
+    elif m["timer"] is not None and abs(r["itimer_after"] - (m["timer"] * TICK - r["elapsed"])) > 0.5:
+        mism.append(f"itimer remaining impl={r['itimer_after']:.2f} model={m['timer'] * TICK - r['elapsed']:.2f}")
     if kind == "prog" and c["mech"] == "thread" and r["workers"] != len(m["acts"]):
         mism.append(f"worker threads impl={r['workers']} model={len(m['acts'])}")
     if kind == "prog" and c["mech"] != "thread" and r["workers"] != 0:
@@ -1622,9 +1756,15 @@ def evaluate(ck, c, r, m):
         ck.violation({**info, "viol": "handler_not_restored"}, "SIGALRM handler after the call is not the handler before it", matcher)
     if c.get("pre_timer"):
         want_left = c["pre_timer"] - r["elapsed"]
-        if not (want_left - 0.5 <= r["itimer_after"] <= c["pre_timer"]):
-            ck.violation({**info, "viol": "itimer_not_restored", "pre_timer": c["pre_timer"], "itimer_after": r["itimer_after"]},
-                         "a previously armed ITIMER_REAL is not armed any more after the call", matcher)
+        if want_left > 0.06:          # the user's alarm is not due yet: it must still be armed, with the time it has left
+            if not (want_left - 0.5 <= r["itimer_after"] <= want_left + 0.03):      # time only moves forward
+                ck.violation({**info, "viol": "itimer_not_restored", "pre_timer": c["pre_timer"], "itimer_after": r["itimer_after"]},
+                             "a previously armed ITIMER_REAL is not back after the call (disarmed, or armed with more time than it had left)", matcher)
+        elif want_left < -0.06:       # it became due during the call: it must not be lost (the user's handler runs, once)
+            if r.get("user_alarms", 0) < 1 and r["itimer_after"] == 0:
+                ck.violation({**info, "viol": "itimer_not_restored", "pre_timer": c["pre_timer"], "itimer_after": r["itimer_after"],
+                              "user_alarms": r.get("user_alarms")},
+                             "an ITIMER_REAL armed before the call became due during it and never went off", matcher)
     elif r["itimer_after"] != 0:
         ck.violation({**info, "viol": "itimer_left_armed", "itimer_after": r["itimer_after"]}, "ITIMER_REAL left armed after the call", matcher)
     if r["threads_new"]:
@@ -1747,6 +1887,8 @@ def replay(path):
         return 1 if res.get("threads_new") else 0
     if viol in ("lock_left",):
         return 0 if res.get("lock_free") else 1
+    if viol == "epilogue_race":
+        return 0 if res.get("handler_same") and (bool(c.get("pre_timer")) == (res.get("itimer_after", 0) > 0)) else 1
     if viol == "task_left":
         return 1 if res.get("tasks_left") else 0
     if viol == "followup_read":
